@@ -4,6 +4,8 @@
     authors: Gabrielle Angeloro, Michael Catanzaro
 """
 from abc import ABC, abstractmethod
+import numbers
+
 import numpy as np
 
 
@@ -65,7 +67,8 @@ class PersLandscape(ABC):
 
     @abstractmethod
     def __mul__(self, other):
-        if not isinstance(other, (int, float)):
+        # any real number: Python's and NumPy's integer / floating scalars alike
+        if not isinstance(other, numbers.Real):
             raise TypeError(
                 "Can only multiply persistence landscapes" "by real numbers"
             )
